@@ -275,6 +275,48 @@ func c12PdfCase(i int, raw []byte) Result {
 		return *x
 	}
 
+	// (2b) reuse: two extractors derived from one base must each give what a fresh
+	// extractor gives
+	if i%3 == 0 {
+		fresh := obs
+		base := tabula.Open(path)
+		n, err := base.PageCount()
+		res.Evals++
+		if err != nil {
+			return bad("pdf-chunks", "error", "PageCount() on the base extractor: "+err.Error(), err.Error())
+		}
+		for k, der := range []*tabula.Extractor{base.PageRange(1, n), base.PageRange(1, n)} {
+			dc, _, err := der.Chunks()
+			res.Evals++
+			if err != nil {
+				return bad("pdf-chunks", "reuse", fmt.Sprintf("Chunks() on extractor %d derived from one base (PageRange(1,%d)) fails: %v", k+1, n, err), err.Error())
+			}
+			texts = texts[:0]
+			for _, ch := range dc.Chunks {
+				texts = append(texts, ch.Text)
+			}
+			du := c12ScanTexts(texts)
+			dobs := make([]c12Obs, len(dc.Chunks))
+			for q, ch := range dc.Chunks {
+				o := c12Obs{Units: du[q], Index: ch.Metadata.ChunkIndex, ID: ch.ID, Ps: ch.Metadata.PageStart, Pe: ch.Metadata.PageEnd,
+					Total: ch.Metadata.TotalChunks, Path: []int{}, Title: -1}
+				for _, t := range ch.Metadata.SectionPath {
+					o.Path = append(o.Path, c12TitleEl(d.r, t))
+				}
+				dobs[q] = o
+			}
+			same := len(dobs) == len(fresh)
+			for q := 0; same && q < len(dobs); q++ {
+				a, b := dobs[q], fresh[q]
+				same = fmt.Sprint(a.Units, a.Index, a.ID, a.Ps, a.Pe, a.Total, a.Path) == fmt.Sprint(b.Units, b.Index, b.ID, b.Ps, b.Pe, b.Total, b.Path)
+			}
+			if !same {
+				return bad("pdf-chunks", "reuse", fmt.Sprintf("Chunks() of extractor %d derived from one base differs from a fresh tabula.Open(pdf).Chunks(): %s vs %s; the PDF lines are %q",
+					k+1, mustJSON(dobs), mustJSON(fresh), d.lines), dobs)
+			}
+		}
+	}
+
 	// (3) ToMarkdown(): one text
 	md, _, err := tabula.Open(path).ToMarkdown()
 	res.Evals++
